@@ -104,6 +104,10 @@ theorem lex_bang (rest : Str) (h : HeadIs (· ≠ '=') rest) : LexesTo (S "!") [
     | nil => simp [lexJsAux, isJsIdStart]
     | cons c r => have := h c r rfl; simp [lexJsAux, isJsIdStart, this])
 
+/-- `...` of a rest parameter / spread argument -/
+theorem lex_dots (rest : Str) : LexesTo (S "...") [.p .dots] rest :=
+  ⟨1, by decide, fun g acc _ => by simp [S, lexJsAux, isJsIdStart]⟩
+
 /-- ` = ` of an assignment -/
 theorem lex_assign (rest : Str) : LexesTo (S " = ") [.p .assign] rest :=
   ⟨3, by decide, fun g acc _ => by simp [S, lexJsAux, isJsIdStart]⟩
@@ -399,5 +403,312 @@ theorem lex_dstr (s : Spec.Name) (h : strOk s = true) (rest : Str) : LexesTo (S 
   have := jsStr_escQ s rest h ((escQ s).length + (rest.length + 1) + 1) [] (by omega)
   simp only [List.reverse_nil, List.nil_append] at this
   simp [lexJsAux, this]
+
+/-! ### expression trees -/
+
+mutual
+/-- trees whose leaves are lexically well formed (identifiers are identifiers, strings are escapable, integers only) -/
+def LexOK : JE → Prop
+  | .num _ s => s = 0
+  | .lstr s => strOk s = true
+  | .dstr s => strOk s = true
+  | .sstr s => sstrOk s = true
+  | .id n => jsIdLex n = true
+  | .mem o n => LexOK o ∧ jsIdLex n = true
+  | .idx o i => LexOK o ∧ LexOK i
+  | .call f as => LexOK f ∧ LexOKL as
+  | .newLS e => LexOK e
+  | .un op a => (op = "-".toList ∨ op = "!".toList) ∧ LexOK a
+  | .bin op a b => (jsOpInfo op).isSome = true ∧ LexOK a ∧ LexOK b
+  | .spread n => jsIdLex n = true
+def LexOKL : List JE → Prop
+  | [] => True
+  | e :: es => LexOK e ∧ LexOKL es
+end
+
+def isNum : JE → Bool
+  | .num _ _ => true
+  | _ => false
+
+/-- what may follow the text of `e`: nothing that continues an identifier or a number -/
+def Sep (e : JE) (rest : Str) : Prop := HeadIs (fun c => isJsIdChar c = false ∧ (isNum e = true → c ≠ '.')) rest
+
+/-- the strong form, good after every tree -/
+def SepAll (rest : Str) : Prop := HeadIs (fun c => isJsIdChar c = false ∧ c ≠ '.') rest
+
+theorem SepAll.sep {rest : Str} (h : SepAll rest) (e : JE) : Sep e rest := fun c r e' => ⟨(h c r e').1, fun _ => (h c r e').2⟩
+
+theorem Sep.idc {e : JE} {rest : Str} (h : Sep e rest) : HeadIs (fun c => isJsIdChar c = false) rest := fun c r e' => (h c r e').1
+
+/-- `HeadIs P (literal ++ …)` by looking at the literal's first character -/
+macro "headis" : tactic =>
+  `(tactic| (intro c r e; simp [S] at e; have hc := e.1; subst hc; first | decide | (constructor <;> (try intro _) <;> decide)))
+
+theorem sepAll_of_cons (c : Char) (r : Str) (h1 : isJsIdChar c = false) (h2 : c ≠ '.') : SepAll (c :: r) := HeadIs.cons ⟨h1, h2⟩
+
+theorem jsIdLex_headNe (n rest : Str) (h : jsIdLex n = true) (x : Char) (hx : isJsIdStart x = false) : HeadIs (· ≠ x) (n ++ rest) := by
+  cases n with
+  | nil => simp [jsIdLex] at h
+  | cons c cs =>
+    simp only [jsIdLex, Bool.and_eq_true] at h
+    intro c' r' e
+    simp only [List.cons_append, List.cons.injEq] at e
+    obtain ⟨rfl, _⟩ := e
+    intro e2; subst e2; rw [h.1] at hx; cases hx
+
+theorem isNum_needsParen (o : JE) (h : o.needsParen = false) : isNum o = false := by
+  cases o <;> simp_all [isNum, JE.needsParen]
+
+/-- the receiver position: parenthesised when `needsParen` -/
+theorem lex_recv (o : JE) (ih : ∀ rest, Sep o rest → LexesTo (txJ o) (prJ o) rest) (rest : Str)
+    (hr : HeadIs (fun c => isJsIdChar c = false) rest) :
+    LexesTo (if o.needsParen then S "(" ++ txJ o ++ S ")" else txJ o) (wrapRecv o (prJ o)) rest := by
+  cases hp : o.needsParen with
+  | true =>
+    have h2 := ih (S ")" ++ rest) (by headis)
+    have := (lex_lp _).append (h2.append (lex_rp rest))
+    simpa [wrapRecv, hp, S] using this
+  | false =>
+    have hn := isNum_needsParen o hp
+    have := ih rest (fun c r e => ⟨hr c r e, fun h => by rw [hn] at h; cases h⟩)
+    simpa [wrapRecv, hp] using this
+
+theorem jsOpInfo_lex (op : Spec.Name) (h : (jsOpInfo op).isSome = true) :
+    ∃ x ∈ jsOps, x.1 = op ∧ (jsOpTok op).getD (.p .plus) = x.2.1 := by
+  obtain ⟨y, hy⟩ := Option.isSome_iff_exists.mp h
+  obtain ⟨hy1, hy2⟩ := jsOpInfo_spec op y hy
+  refine ⟨y, hy1, hy2, ?_⟩
+  have := jsOps_tok y hy1
+  rw [hy2] at this; simp [this]
+
+mutual
+/-- **lexing**: the text of a tree lexes to the tokens of the reference printer -/
+theorem lexE : ∀ (e : JE), LexOK e → ∀ (rest : Str), Sep e rest → LexesTo (txJ e) (prJ e) rest
+  | .num d s, h, rest, hs => by
+    have : s = 0 := h
+    subst this
+    simpa [txJ, prJ] using lex_num d rest (fun c r e => ⟨(hs c r e).1, (hs c r e).2 rfl⟩)
+  | .lstr s, h, rest, hs => by
+    have := (lex_id (S "new") (by decide) _ (by headis)).append ((lex_space _).append
+      ((lex_id (S "LingoString") (by decide) _ (by headis)).append ((lex_lp _).append ((lex_dstr s h _).append (lex_rp rest)))))
+    simpa [txJ, prJ, S] using this
+  | .dstr s, h, rest, hs => by simpa [txJ, prJ] using lex_dstr s h rest
+  | .sstr s, h, rest, hs => by simpa [txJ, prJ] using lex_sstr s h rest
+  | .id n, h, rest, hs => by simpa [txJ, prJ] using lex_id n h rest hs.idc
+  | .mem o n, h, rest, hs => by
+    obtain ⟨ho, hn⟩ : LexOK o ∧ jsIdLex n = true := h
+    have := (lex_recv o (fun r hr => lexE o ho r hr) _ (by headis)).append
+      ((lex_dot _ (jsIdLex_headNe n rest hn '.' (by decide))).append (lex_id n hn rest hs.idc))
+    simpa [txJ, prJ, S] using this
+  | .idx o i, h, rest, hs => by
+    obtain ⟨ho, hi⟩ : LexOK o ∧ LexOK i := h
+    have := (lex_recv o (fun r hr => lexE o ho r hr) _ (by headis)).append
+      ((lex_lb _).append ((lexE i hi _ (by headis)).append (lex_rb rest)))
+    simpa [txJ, prJ, S] using this
+  | .call g as, h, rest, hs => by
+    obtain ⟨hg, has⟩ : LexOK g ∧ LexOKL as := h
+    have := (lex_recv g (fun r hr => lexE g hg r hr) _ (by headis)).append
+      ((lex_lp _).append ((lexArgs as has _ (by headis)).append (lex_rp rest)))
+    simpa [txJ, prJ, S] using this
+  | .newLS e, h, rest, hs => by
+    have he : LexOK e := h
+    have := (lex_id (S "new") (by decide) _ (by headis)).append ((lex_space _).append
+      ((lex_id (S "LingoString") (by decide) _ (by headis)).append ((lex_lp _).append ((lexE e he _ (by headis)).append (lex_rp rest)))))
+    simpa [txJ, prJ, S] using this
+  | .un op a, h, rest, hs => by
+    obtain ⟨hop, ha⟩ : (op = "-".toList ∨ op = "!".toList) ∧ LexOK a := h
+    rcases hop with rfl | rfl
+    · have := (lex_minus _ (by headis)).append ((lex_lp _).append ((lexE a ha _ (by headis)).append (lex_rp rest)))
+      have ht : (jsUnTok ['-']).getD (.p .bang) = .p .minus := by decide
+      simpa [txJ, prJ, S, ht] using this
+    · have := (lex_bang _ (by headis)).append ((lex_lp _).append ((lexE a ha _ (by headis)).append (lex_rp rest)))
+      have ht : (jsUnTok ['!']).getD (.p .bang) = .p .bang := by decide
+      simpa [txJ, prJ, S, ht] using this
+  | .bin op a b, h, rest, hs => by
+    obtain ⟨hop, ha, hb⟩ : (jsOpInfo op).isSome = true ∧ LexOK a ∧ LexOK b := h
+    obtain ⟨x, hx, rfl, htok⟩ := jsOpInfo_lex op hop
+    have := (lex_lp _).append ((lexE a ha _ (by headis)).append ((lex_infix x hx _).append
+      ((lexE b hb _ (by headis)).append (lex_rp rest))))
+    simpa [txJ, prJ, S, htok] using this
+  | .spread n, h, rest, hs => by
+    have hn : jsIdLex n = true := h
+    have := (lex_dots _).append (lex_id n hn rest hs.idc)
+    simpa [txJ, prJ, S] using this
+/-- argument lists, separated by `, ` -/
+theorem lexArgs : ∀ (es : List JE), LexOKL es → ∀ (rest : Str), SepAll rest → LexesTo (txArgs es) (prJArgs es) rest
+  | [], _, rest, _ => by simpa [txArgs, prJArgs] using LexesTo.nil rest
+  | [e], h, rest, hs => by
+    obtain ⟨he, _⟩ : LexOK e ∧ LexOKL [] := h
+    simpa [txArgs, prJArgs] using lexE e he rest (hs.sep e)
+  | e :: e2 :: es, h, rest, hs => by
+    obtain ⟨he, hes⟩ : LexOK e ∧ LexOKL (e2 :: es) := h
+    have := (lexE e he _ (by headis)).append ((lex_commasp _).append (lexArgs (e2 :: es) hes rest hs))
+    simpa [txArgs, prJArgs, S] using this
+end
+
+/-! ### the translation of a fragment expression is lexically well formed and lies in the reader's fragment -/
+
+theorem lexok_jid (x : String) (h : jsIdLex x.toList = true) : LexOK (jid x) := by
+  simp only [jid, LexOK]; exact h
+
+theorem jsBinOp_info' (op : BinOp) (o : String) (h : jsBinOp op = some o) : (jsOpInfo o.toList).isSome = true := jsBinOp_info op o h
+
+theorem jsMethodOp_lex (op : BinOp) (m : String) (h : jsMethodOp op = some m) : jsIdLex m.toList = true := by
+  cases op <;> simp [jsMethodOp] at h <;> subst h <;> decide
+
+mutual
+theorem toJsE_lexok (c : JCtx) : ∀ (e : Expr), JsOkE e = true → LexOK (toJsE c e)
+  | .int _, _ => by simp [toJsE, LexOK]
+  | .str s, h => by simpa [toJsE, LexOK, JsOkE] using h
+  | .sym n, h => by
+    have hs : jsIdLex "symbol".toList = true := by decide
+    have h' : sstrOk n = true := by simpa [JsOkE] using h
+    simp only [toJsE, jcall, LexOK, LexOKL]; exact ⟨hs, h', trivial⟩
+  | .var .loc n, h => by
+    simp only [JsOkE, Bool.or_eq_true, beq_iff_eq] at h
+    by_cases hm : n = "me".toList
+    · simp only [toJsE, hm, if_true]; exact lexok_jid "this" (by decide)
+    · rcases h with h | h
+      · exact absurd h hm
+      · simp only [toJsE, hm, if_false, LexOK]
+        simp only [jsIdOk, Bool.and_eq_true] at h; exact h.1
+  | .var .param n, h => by
+    simp only [JsOkE, Bool.or_eq_true, beq_iff_eq] at h
+    by_cases hm : n = "me".toList
+    · simp only [toJsE, hm, if_true]; exact lexok_jid "this" (by decide)
+    · rcases h with h | h
+      · exact absurd h hm
+      · simp only [toJsE, hm, if_false, LexOK]
+        simp only [jsIdOk, Bool.and_eq_true] at h; exact h.1
+  | .var .glob n, h => by
+    have h' : jsIdLex n = true := by simpa [JsOkE] using h
+    simp only [toJsE, LexOK]; exact ⟨lexok_jid "_global" (by decide), h'⟩
+  | .var .prop n, h => by
+    simp only [JsOkE, Bool.and_eq_true] at h
+    simp only [toJsE, LexOK]; exact ⟨lexok_jid "this" (by decide), h.1⟩
+  | .un .neg a, h => by
+    have := toJsE_lexok c a (by simpa [JsOkE] using h)
+    simp only [toJsE, LexOK]; exact ⟨Or.inl trivial, this⟩
+  | .un .not a, h => by
+    have := toJsE_lexok c a (by simpa [JsOkE] using h)
+    simp only [toJsE, LexOK]; exact ⟨Or.inr trivial, this⟩
+  | .field a, h => by
+    have := toJsE_lexok c a (by simpa [JsOkE] using h)
+    have hf : jsIdLex "field".toList = true := by decide
+    simp only [toJsE, jcall, LexOK, LexOKL]; exact ⟨hf, this, trivial⟩
+  | .bin op a b, h => by
+    simp only [JsOkE, Bool.and_eq_true] at h
+    have fa := toJsE_lexok c a h.1
+    have fb := toJsE_lexok c b h.2
+    have hs : jsIdLex "sprite".toList = true := by decide
+    cases hop : jsBinOp op with
+    | some o =>
+      simp only [toJsE, hop, LexOK]
+      exact ⟨jsBinOp_info' op o hop, fa, fb⟩
+    | none =>
+      cases hm : jsMethodOp op with
+      | some m => simp only [toJsE, hop, hm, jmem, LexOK, LexOKL]; exact ⟨⟨fa, jsMethodOp_lex op m hm⟩, fb, trivial⟩
+      | none =>
+        simp only [toJsE, hop, hm, jmem, jcall, LexOK, LexOKL]
+        refine ⟨⟨⟨hs, fa, trivial⟩, ?_⟩, ⟨hs, fb, trivial⟩, trivial⟩
+        split <;> decide
+  | .call f as, h => by
+    simp only [JsOkE, Bool.and_eq_true, Bool.not_eq_true'] at h
+    obtain ⟨⟨⟨hid, hsp⟩, _⟩, has⟩ := h
+    have hnew : f ≠ S "new" := by
+      intro e; simp only [jsIdOk, Bool.and_eq_true, Bool.not_eq_true'] at hid
+      rw [e] at hid; exact absurd hid.2 (by decide)
+    have hsp' : f ≠ S "birth" ∧ f ≠ S "go" ∧ f ≠ S "cast" ∧ f ≠ S "continue" := by
+      simp only [specialCall, Bool.or_eq_false_iff, beq_eq_false_iff_ne, ne_eq] at hsp
+      exact ⟨hsp.1.1.1.1, hsp.1.1.1.2, hsp.1.1.2, hsp.1.2⟩
+    have h1' : ¬ f = "birth".toList := hsp'.1
+    have h2' : ¬ f = "new".toList := hnew
+    have h3' : ¬ f = "go".toList := hsp'.2.1
+    have h4' : ¬ f = "cast".toList := hsp'.2.2.1
+    have h5' : ¬ f = "continue".toList := hsp'.2.2.2
+    have fas := toJsEs_lexok c as has
+    simp only [toJsE, toJsCall, h1', h2', h3', h4', h5', if_false, LexOK]
+    simp only [jsIdOk, Bool.and_eq_true] at hid
+    exact ⟨hid.1, fas⟩
+  | .list as, h => by
+    have fas := toJsEs_lexok c as (by simpa [JsOkE] using h)
+    have hl : jsIdLex "list".toList = true := by decide
+    simp only [toJsE, jcall, LexOK]; exact ⟨hl, fas⟩
+  | .float _ _, h => by simp [JsOkE] at h
+  | .me, h => by simp [JsOkE] at h
+  | .mcall _ _ _, h => by simp [JsOkE] at h
+  | .plist _, h => by simp [JsOkE] at h
+  | .the _ _ _, h => by simp [JsOkE] at h
+  | .key _, h => by simp [JsOkE] at h
+  | .movie _, h => by simp [JsOkE] at h
+  | .oprop _ _, h => by simp [JsOkE] at h
+  | .chunk _ _ _ _, h => by simp [JsOkE] at h
+theorem toJsEs_lexok (c : JCtx) : ∀ (es : List Expr), JsOkL es = true → LexOKL (toJsEs c es)
+  | [], _ => by simp [toJsEs, LexOKL]
+  | e :: es, h => by
+    simp only [JsOkL, Bool.and_eq_true] at h
+    simp only [toJsEs, LexOKL]
+    exact ⟨toJsE_lexok c e h.1, toJsEs_lexok c es h.2⟩
+end
+
+theorem jsIdOk_okId (n : Spec.Name) (h : jsIdOk n = true) : OkId n := by
+  simp only [jsIdOk, Bool.and_eq_true, Bool.not_eq_true'] at h
+  refine ⟨h.2, ?_⟩
+  intro e; rw [e] at h; exact absurd h.2 (by decide)
+
+mutual
+/-- the fragment of the link lies inside the source fragment of the spec layer's own theorem (`JsSrc`) -/
+theorem jsOk_src : ∀ (e : Expr), JsOkE e = true → JsSrc e
+  | .int _, _ => trivial
+  | .str _, _ => trivial
+  | .sym _, _ => trivial
+  | .var .loc n, h => by
+    simp only [JsOkE, Bool.or_eq_true, beq_iff_eq] at h
+    rcases h with h | h
+    · exact Or.inl h
+    · exact Or.inr (jsIdOk_okId n h)
+  | .var .param n, h => by
+    simp only [JsOkE, Bool.or_eq_true, beq_iff_eq] at h
+    rcases h with h | h
+    · exact Or.inl h
+    · exact Or.inr (jsIdOk_okId n h)
+  | .var .glob _, _ => trivial
+  | .var .prop _, _ => trivial
+  | .un _ a, h => by
+    have : JsSrc a := jsOk_src a (by simpa [JsOkE] using h)
+    simpa [JsSrc] using this
+  | .field a, h => by
+    have : JsSrc a := jsOk_src a (by simpa [JsOkE] using h)
+    simpa [JsSrc] using this
+  | .bin _ a b, h => by
+    simp only [JsOkE, Bool.and_eq_true] at h
+    exact ⟨jsOk_src a h.1, jsOk_src b h.2⟩
+  | .call f as, h => by
+    simp only [JsOkE, Bool.and_eq_true, Bool.not_eq_true'] at h
+    obtain ⟨⟨⟨hid, hsp⟩, _⟩, has⟩ := h
+    simp only [specialCall, Bool.or_eq_false_iff, beq_eq_false_iff_ne, ne_eq] at hsp
+    exact ⟨⟨jsIdOk_okId f hid, hsp.1.1.1.1, hsp.1.1.1.2, hsp.1.1.2, hsp.1.2⟩, jsOk_srcL as has⟩
+  | .list as, h => by
+    have := jsOk_srcL as (by simpa [JsOkE] using h)
+    simpa [JsSrc] using this
+  | .float _ _, h => by simp [JsOkE] at h
+  | .me, h => by simp [JsOkE] at h
+  | .mcall _ _ _, h => by simp [JsOkE] at h
+  | .plist _, h => by simp [JsOkE] at h
+  | .the _ _ _, h => by simp [JsOkE] at h
+  | .key _, h => by simp [JsOkE] at h
+  | .movie _, h => by simp [JsOkE] at h
+  | .oprop _ _, h => by simp [JsOkE] at h
+  | .chunk _ _ _ _, h => by simp [JsOkE] at h
+theorem jsOk_srcL : ∀ (es : List Expr), JsOkL es = true → JsSrcL es
+  | [], _ => trivial
+  | e :: es, h => by
+    simp only [JsOkL, Bool.and_eq_true] at h
+    exact ⟨jsOk_src e h.1, jsOk_srcL es h.2⟩
+end
+
+/-- **lexing the translation**: the text of `toJs e` lexes to the reference printer's tokens -/
+theorem lex_toJsE (c : JCtx) (e : Expr) (h : JsOkE e = true) : lexJs (txJ (toJsE c e)) = some (prJ (toJsE c e)) :=
+  (lexE (toJsE c e) (toJsE_lexok c e h) [] HeadIs.nil).whole
 
 end Drx.LinkJs
